@@ -58,6 +58,15 @@ CHECKS = {
  "C22": dict(cat="exploration", tech="deterministic simulation: directories produced by seeded histories (incl. crash images and merged directories) reopened with every other index mode; refusal + byte-identical tree, or equal observation",
    text="For every image (clean, never written, written, merged, crashed at a seeded file-mutation point) produced in one index mode, Open with each other mode: sparse<->RAM on a directory holding data must be refused and leave the tree byte-identical; RAM<->RAM must succeed and show the model's contents.",
    note="A directory without any data record need not be refused (the statement speaks of data)."),
+ "C14": dict(cat="exploration", tech="deterministic simulation: seeded cooperative scheduler over caller goroutines (yield at every lock, disk and clock operation), history checked by lock-grant witness order with porcupine fallback, plus the same search under the race detector with the scheduler's hand-off hidden from it",
+   text="2-16 tasks x 1-4 View/Update transactions x 1-3 databases in one process, all index modes; the scheduler decides every interleaving from the seed; results must be explained by the lock-grant order (else porcupine looks for any real-time-consistent order), read-only transactions repeat a read, no deadlock, final reopen equals the serial result; half of the workers run the race-detector build (runtime.RaceDisable around the scheduler hand-off, so only nutsdb's own synchronisation orders accesses) and report races whose both innermost frames are in nutsdb.",
+   note="No TTL in concurrent programs. The race build uses FileIO (mapped bytes would be Go memory in the simulator). ThreadSanitizer's bounded, randomly evicted history can miss races; it has no false positives. Sparse-mode bucket names are of equal length (K6)."),
+ "C17": dict(cat="exploration", tech="deterministic simulation: C14's scheduler and oracles with an extra task calling Merge, race-detector build, final reopen vs. serial result",
+   text="Mixed View/Update tasks plus a Merge task (RAM index modes; KV, sets, sorted sets with ZAdd/ZRem) under the seeded scheduler; the transactions' history must be serializable with Merge invisible, no data race with both frames in nutsdb, no deadlock, and a clean reopen after the run must show the serial result.",
+   note="Lists and positional sorted-set removals are excluded from programs with Merge (K4, K5)."),
+ "C18": dict(cat="exploration", tech="deterministic simulation: writer tasks and a Backup task under the seeded scheduler (every file operation of CopyDir is a yield point); the opened backup is compared with the model state at the backup's lock grant",
+   text="Writers and readers plus one Backup(dir) task on one database, all index modes and RWModes; the backup directory must open with the same options and show exactly the state after the write transactions granted the lock before the backup's read transaction.",
+   note="utils/filesystem.CopyDir is the real code running on the simulated disk."),
 }
 
 ORDER = sorted(CHECKS)
